@@ -78,7 +78,21 @@ def init_state(G, gs_init, eps_index: int, record=None, starting_step: int = 0, 
     return cgs
 
 
+class DriveRaised(Exception):
+    """Executing a graph that compiled, through its public API, raised. C01 and C10 judge this (the replay / the trainable system does not
+    reproduce anything when it cannot run); elsewhere it stays a harness error."""
+
+
 def drive(G, cgs, api: str, n: int):
+    try:
+        return _drive(G, cgs, api, n)
+    except Exception as e:  # noqa
+        import traceback
+
+        raise DriveRaised(f"api={api}: " + "".join(traceback.format_exception(None, e, e.__traceback__))[-900:]) from e
+
+
+def _drive(G, cgs, api: str, n: int):
     """Drive the compiled graph for n supervisor steps with one of its public APIs. Returns (final graph state, list of supervisor obs or None)."""
     import jax
 
